@@ -7,6 +7,7 @@
 #define FCPPT_MATH_LOG2_HPP_INCLUDED
 
 #include <fcppt/config/external_begin.hpp>
+#include <limits>
 #include <type_traits>
 #include <fcppt/config/external_end.hpp>
 
@@ -28,7 +29,9 @@ inline T log2(T const x)
 
   T r(1);
 
-  while ((x >> r) != 0)
+  // Never shift by the width of T, which is undefined and made this loop run
+  // forever for values with the highest bit set.
+  while (r < static_cast<T>(std::numeric_limits<T>::digits) && (x >> r) != 0)
   {
     ++r;
   }
